@@ -38,6 +38,13 @@ class _L(object):
     pass
 
 
+# characters and shapes that text codecs, normalisers and "tidy-up" calls treat specially: byte-order marks, NUL, line ends,
+# surrounding white space, combining sequences (NFC vs NFD), case pairs without round trip, the last code points
+TEXT_ATOMS = ["\ufeff", "\ufffe", "\uffff", "\x00", "\n", "\r\n", "\t", " ", "\x7f", "\x80", "\xff", "\u0100", "e\u0301", "\u00e9", "\u212b", "\u00c5",
+              "\u00df", "\u0130", "\u2028", "\U0010ffff", "\U00010000", "a", "A", "%", "\\", "\"", "'"]
+TEXT_SPECIAL = ["\ufeff", "\ufeffabc", "abc\ufeff", "a\ufeffb", "\ufeff\ufeff", "\ufffe", " a", "a ", " a ", "\ta\n", "a\r\n", "\n", "a\x00", "\x00a", "a\x00b",
+                "e\u0301", "\u00e9", "\u212b", "\u00df", "\u0130", "i\u0307", "\U0010ffff", "\uffff", "\x7f\x80\xff", "ABC", "abc", "\\x41", "%41"]
+
 def lib():
     global _lib
     if _lib is None:
@@ -334,7 +341,7 @@ def fixed_cases(cname):
     elif base == "OctetString":
         vals = [dict(pat=[n, n & 0xFF]) for n in list(range(0, 8)) + [252, 253, 254, 255, 256, 257, 300, 65535, 65536, 70000]]
     elif base == "CharacterString":
-        vals = [dict(s=s) for s in ["", "a", "\x00", "é", "€", "\U0001f600", "x" * 252, "x" * 253, "y" * 254, "é" * 126 + "z", "é" * 127, "w" * 65534, "w" * 65535]]
+        vals = [dict(s=s) for s in ["", "a", "\x00", "é", "€", "\U0001f600", "x" * 252, "x" * 253, "y" * 254, "é" * 126 + "z", "é" * 127, "w" * 65534, "w" * 65535] + TEXT_SPECIAL]
     elif base == "BitString":
         for n in range(0, 65):
             vals.append(dict(bits=[(i * 7 + n) % 3 == 0 and 1 or 0 for i in range(n)]))
@@ -392,6 +399,7 @@ def value_strategy(cname):
         return st.one_of(st.binary(max_size=40).map(lambda b: dict(hex=b.hex())), st.tuples(st.integers(0, 300), st.integers(0, 255)).map(lambda t: dict(pat=list(t))))
     if base == "CharacterString":
         return st.one_of(st.text(alphabet=st.characters(blacklist_categories=("Cs",)), max_size=30),
+                         st.lists(st.sampled_from(TEXT_ATOMS), max_size=6).map("".join),
                          st.tuples(st.integers(240, 260), st.sampled_from(["a", "é", "€"])).map(lambda t: t[1] * t[0])).map(lambda s: dict(s=s))
     if base == "BitString":
         bits = st.integers(0, 64).flatmap(lambda n: st.lists(st.integers(0, 1), min_size=n, max_size=n)).map(lambda b: dict(bits=b))
